@@ -33,6 +33,9 @@ type Behaviour struct {
 	Delay  time.Duration // virtual time the request takes
 	Fn     func(req *http.Request, body []byte) (int, []byte, error) // dynamic answer
 	Stream func() io.ReadCloser // lazily produced body (C17)
+	// ContentLength: what the answer's Content-Length header announces (0 = nothing announced). Nothing makes the
+	// origin send that many bytes.
+	ContentLength int64
 }
 
 // Net is the scripted origin: URL -> behaviour. Installed as http.DefaultTransport.
@@ -106,9 +109,16 @@ func (n *Net) RoundTrip(req *http.Request) (*http.Response, error) {
 		Proto:      "HTTP/1.1", ProtoMajor: 1, ProtoMinor: 1,
 		Header:        n.headers(),
 		Body:          rc,
-		ContentLength: -1,
+		ContentLength: announced(b),
 		Request:       req,
 	}, nil
+}
+
+func announced(b *Behaviour) int64 {
+	if b.ContentLength != 0 {
+		return b.ContentLength
+	}
+	return -1
 }
 
 func (n *Net) headers() http.Header {
